@@ -56,6 +56,10 @@ def _run_instance(key, params, budget_s, seed, conn):
             ctx = api.SymCtx(w)
             try:
                 sc.func(ctx, **params)
+                # a failed check that the scenario's own exception handling swallowed is still a failed check
+                for rec in ctx.records:
+                    if rec[1] == 'refuted':
+                        return ctx, ('failed', rec[0], rec[2])
                 return ctx, None
             except api.Skip:
                 return ctx, 'skip'
